@@ -2,7 +2,7 @@
 import numpy as np
 
 from pbv import gen, mm
-from pbv.core import Borderline, Violation, require, subcheck
+from pbv.core import Borderline, Violation, close, require, subcheck
 
 SUBCHECKS = []
 RULE = (
@@ -54,9 +54,12 @@ def _scene(d, kind):
     # itself (C08 checks that the code implements EM): surveyed failure rates
     # of *correct* EM are 5-20 % for full-covariance Gaussians at beta >= 0.3
     # and about 1 % for cACG at beta = 0.45, zero below the bounds used here.
-    beta_max = {'gmm': 0.15, 'gcacgmm': 0.15, 'cacgmm': 0.3, 'vmfcacgmm': 0.3,
-                'cbmm': 0.15}.get(kind, 0.45)
-    beta = d.choice([0.0, 0.1, beta_max]) if d.bool() else d.float(0, beta_max)
+    # (these were once hard bounds of the generator; now every blur that keeps
+    # the true class the largest is drawn and a case in which exact EM itself
+    # leaves the partition - established by comparing every step with the
+    # reference EM - is counted as borderline instead of judged)
+    beta_max = 0.45
+    beta = d.choice([0.0, 0.1, 0.15, 0.3, beta_max]) if d.bool() else d.float(0, beta_max)
     iterations = d.choice([1, 2, 3, 5, 10, 20])
     if kind == 'cbmm':
         iterations = d.choice([1, 2, 3])
@@ -118,6 +121,55 @@ def _scene(d, kind):
     return case
 
 
+def _library_did_exact_em(case):
+    """Re-run the fit with the in-loop observer and compare every E- and
+    M-step with the independent estimators of C08.  True: the library carried
+    out exact EM on this input, so whatever the partition became is what EM
+    does to it (the basin of attraction of the true partition is mathematics,
+    not code).  False: some step deviates.  None: no per-iteration trace (hook
+    not available)."""
+    from pb_bss import _verif
+    from pbv.props import c08
+    trace = []
+
+    def cb(**k):
+        trace.append((k['model'], np.array(k['affiliation'], copy=True),
+                      None if k['quadratic_form'] is None
+                      else np.array(k['quadratic_form'], copy=True)))
+    _verif.register(cb)
+    try:
+        mm.fit(case)
+    except Exception:  # noqa
+        return False
+    finally:
+        _verif.unregister(cb)
+    if len(trace) != case.iterations:
+        return None
+    try:
+        for it, (model, aff, q) in enumerate(trace):
+            if it > 0:
+                exp_aff, exp_q = c08.estep_oracle(case, trace[it - 1][0])
+                ok, _ = close(aff, exp_aff, atol=1e-7)
+                if not ok:
+                    return False
+                if q is not None and not close(q, exp_q, rtol=1e-6, atol=1e-12)[0]:
+                    return False
+            c08.compare_mstep(case, model, c08.mstep_oracle(case, aff, q), it)
+    except Violation:
+        return False
+    return True
+
+
+def _outside_basin_or_violation(case, clause, detail, kind):
+    exact = _library_did_exact_em(case)
+    if exact:
+        raise Borderline('every step equals the reference EM: exact EM itself '
+                         'leaves the true partition here (' + clause + ')')
+    raise Violation(clause, detail + (' [no per-iteration trace]' if exact is None else
+                                      ' [and the fit deviates from the reference EM]'),
+                    kind=kind)
+
+
 def _check(d, ctx, kind):
     case = _scene(d, kind)
     K = case.K
@@ -133,10 +185,12 @@ def _check(d, ctx, kind):
     for name, p in (('predict', post), ('fit_predict', fp)):
         est = np.argmax(p, axis=-2)
         wrong = int(np.sum(est != case.labels))
-        require(wrong == 0, 'argmax-is-not-the-true-class',
+        if wrong:
+            _outside_basin_or_violation(
+                case, 'argmax-is-not-the-true-class',
                 f'{name}: {wrong} of {case.labels.size} observations mislabelled '
                 f'(eps={case.meta["eps"]:.1e} beta={case.meta["beta"]:.2f} '
-                f'iterations={case.iterations})', kind=kind)
+                f'iterations={case.iterations})', kind)
     # parameters point at the prototypes.  One or two M-steps on a blurred
     # partition still carry the blur (mean = blurred mean); the clause is
     # judged for an exact start or after >= 10 iterations with a sharpened
@@ -147,48 +201,51 @@ def _check(d, ctx, kind):
         ctx.label('parameters-not-judged')
         return
     ctx.label('parameters-judged')
-    thr = 0.05
-    protos = case.meta['protos']
-    if kind in mm.INTEGRATION:
-        sp, se = protos
-        V = np.asarray(model.cacg.covariance_eigenvectors)
-        lam = np.asarray(model.cacg.covariance_eigenvalues)
-        for f in range(case.lead[0]):
-            for k in range(K):
-                v = V[f, k][:, int(np.argmax(lam[f, k]))]
-                a = angle(v, sp[f, k])
-                require(a <= thr, 'cacg-principal-eigenvector-off-prototype',
-                        f'f={f} k={k} angle={a:.3f}', kind=kind)
-        if kind == 'gcacgmm':
-            dist = np.linalg.norm(np.asarray(model.gaussian.mean) - 5 * se, axis=-1)
-            require(np.all(dist <= thr), 'gaussian-mean-off-prototype',
-                    f'{dist}', kind=kind)
+    try:
+        thr = 0.05
+        protos = case.meta['protos']
+        if kind in mm.INTEGRATION:
+            sp, se = protos
+            V = np.asarray(model.cacg.covariance_eigenvectors)
+            lam = np.asarray(model.cacg.covariance_eigenvalues)
+            for f in range(case.lead[0]):
+                for k in range(K):
+                    v = V[f, k][:, int(np.argmax(lam[f, k]))]
+                    a = angle(v, sp[f, k])
+                    require(a <= thr, 'cacg-principal-eigenvector-off-prototype',
+                            f'f={f} k={k} angle={a:.3f}', kind=kind)
+            if kind == 'gcacgmm':
+                dist = np.linalg.norm(np.asarray(model.gaussian.mean) - 5 * se, axis=-1)
+                require(np.all(dist <= thr), 'gaussian-mean-off-prototype',
+                        f'{dist}', kind=kind)
+            else:
+                for k in range(K):
+                    a = angle(np.asarray(model.vmf.mean)[k], se[k])
+                    require(a <= thr and np.dot(model.vmf.mean[k], se[k]) > 0,
+                            'vmf-mean-off-prototype', f'k={k} angle={a:.3f}', kind=kind)
         else:
             for k in range(K):
-                a = angle(np.asarray(model.vmf.mean)[k], se[k])
-                require(a <= thr and np.dot(model.vmf.mean[k], se[k]) > 0,
-                        'vmf-mean-off-prototype', f'k={k} angle={a:.3f}', kind=kind)
-    else:
-        for k in range(K):
-            if kind == 'cacgmm':
-                v = model.cacg.covariance_eigenvectors[k][:, int(np.argmax(
-                    model.cacg.covariance_eigenvalues[k]))]
-                a = angle(v, protos[k])
-            elif kind == 'cwmm':
-                a = angle(model.complex_watson.mode[k], protos[k])
-            elif kind == 'cbmm':
-                b = model.complex_bingham
-                v = b.covariance_eigenvectors[k][:, int(np.argmax(
-                    b.covariance_eigenvalues[k]))]
-                a = angle(v, protos[k])
-            elif kind == 'gmm':
-                a = float(np.linalg.norm(model.gaussian.mean[k] - 5 * protos[k]))
-            else:
-                a = angle(model.vmf.mean[k], protos[k])
-                require(np.dot(model.vmf.mean[k], protos[k]) > 0,
-                        'vmf-mean-points-away', f'k={k}', kind=kind)
-            require(a <= thr, 'class-parameter-off-prototype',
-                    f'k={k} angle/distance={a:.4f} > {thr}', kind=kind)
+                if kind == 'cacgmm':
+                    v = model.cacg.covariance_eigenvectors[k][:, int(np.argmax(
+                        model.cacg.covariance_eigenvalues[k]))]
+                    a = angle(v, protos[k])
+                elif kind == 'cwmm':
+                    a = angle(model.complex_watson.mode[k], protos[k])
+                elif kind == 'cbmm':
+                    b = model.complex_bingham
+                    v = b.covariance_eigenvectors[k][:, int(np.argmax(
+                        b.covariance_eigenvalues[k]))]
+                    a = angle(v, protos[k])
+                elif kind == 'gmm':
+                    a = float(np.linalg.norm(model.gaussian.mean[k] - 5 * protos[k]))
+                else:
+                    a = angle(model.vmf.mean[k], protos[k])
+                    require(np.dot(model.vmf.mean[k], protos[k]) > 0,
+                            'vmf-mean-points-away', f'k={k}', kind=kind)
+                require(a <= thr, 'class-parameter-off-prototype',
+                        f'k={k} angle/distance={a:.4f} > {thr}', kind=kind)
+    except Violation as v:
+        _outside_basin_or_violation(case, v.clause, v.detail, kind)
     ctx.nontrivial(case.meta['beta'] >= 0.1 or case.iterations >= 2)
 
 
